@@ -43,6 +43,12 @@ impl<S: Storage> InsertExecutor<S> {
         #[for_await]
         for chunk in child {
             let chunk = Evaluator::new(&expr).eval_list(&chunk?)?;
+            // reject NULLs in NOT NULL (and primary key) columns
+            for (column, array) in columns.iter().zip(chunk.arrays()) {
+                if !column.is_nullable() && array.count() != array.len() {
+                    Err(ExecutorError::not_nullable())?;
+                }
+            }
             cnt += chunk.cardinality();
             txn.append(chunk).await?;
         }
